@@ -146,7 +146,7 @@ RunResult run_w3(const Plan& pl) {
                 if (pl.geti("second_round", 0) && res.viol.empty() && !L.empty()) {
                     std::set<unsigned> before_ids; for (auto& c : L) before_ids.insert(c->get_id()); std::set<unsigned> ever = before_ids; for (auto& mi : M) ever.insert(mi.id);
                     sim::Rng rr(pl.seed * 131 + 17); int k2 = 1 + (int)rr.below(std::min<size_t>(3, L.size()));
-                    for (int q = 0; q < k2; q++) { cell& c = *L[rr.below(L.size())]; cell_tester::division_volume(c) = 0.5 * c.get_volume(); }
+                    for (int q = 0; q < k2; q++) { cell& c = *L[rr.below(L.size())]; cell_tester::division_volume(c) = 0.5 * c.get_volume(); if (auto* pc = dynamic_cast<plan_cell*>(&c)) pc->ready = true; }   // any position of the list: bystanders of the first round and daughters
                     unsigned max2 = max_id; size_t n2 = L.size();
                     cell_divider::run(L, B.lmin, lmr, max_id, false);
                     std::set<unsigned> ids2; for (size_t i = 0; i < L.size(); i++) { if (L[i]->get_local_id() != i) { res.fail("C08", "local_id", "position index != list position after the second cell_divider::run"); break; }
